@@ -32,7 +32,7 @@ from props.c14 import nest_complex, loops_forever, time_limit, RealCodeTimeout
 
 TITLE = "block-level vs combinator-level constraint scope"
 LEVEL = "proof"
-DOMAINS = ['Decode', 'Design']
+DOMAINS = ['Decode', 'Design', 'Front']
 
 # Finding of this check on the pinned tree, repaired in /repo commit 2f184ec; the window search below
 # (sig "ranges:overrun") and the end-to-end search (sig "e2e:partial-last-repetition") report it again
@@ -386,7 +386,72 @@ def search_e2e(program):
 
 # --------------------------------------------------------------------------- run / replay
 
+def nested_geometry_programs():
+    """Deterministic family: a block with a preamble trial (crossed Transition factor) and a block-level
+    windowed constraint, repeated and then nested under POST_PREAMBLE; the geometry (trials, preamble,
+    sustain counts) that Repeat / Nest hand on for the block's constraints decides their scope
+    (seed C26-sustain-keeps-preamble-unscaled)."""
+    A = {"id": 0, "name": "A", "kind": "simple", "levels": [["a1", 1], ["a2", 1]]}
+    D = {"id": 1, "name": "D", "kind": "derived", "window": {"type": "transition", "deps": [0]},
+         "levels": [{"name": "same", "table": [[["a1", "a1"]], [["a2", "a2"]]]}, {"name": "diff", "else": True}]}
+    S = {"id": 2, "name": "S", "kind": "simple", "levels": [["s1", 1], ["s2", 1]]}
+    out = []
+    for bc in ({"kind": "ExactlyK", "k": 3, "level": [0, "a1"]}, {"kind": "Pin", "index": 1, "level": [0, "a1"]},
+               {"kind": "AtMostKInARow", "k": 2, "level": [0, "a2"]}):
+        cons = [dict(bc, id=0), {"id": 1, "kind": "MinimumTrials", "trials": 9}, {"id": 2, "kind": "AtMostKInARow", "k": 1, "factor": 2}]
+        for with_repeat in (True, False):
+            blocks = [{"id": 0, "kind": "CrossBlock", "design": [0, 1], "crossing": [0, 1], "constraints": [0], "rcc": True}]
+            outer = 0
+            if with_repeat:
+                blocks.append({"id": 1, "kind": "Repeat", "block": 0, "constraints": [1]})
+                outer = 1
+            blocks.append({"id": 2, "kind": "CrossBlock", "design": [2], "crossing": [2], "constraints": [], "rcc": True})
+            blocks.append({"id": 3, "kind": "Nest", "outer": outer, "inner": 2, "constraints": [2], "alignment": "post preamble"})
+            out.append({"factors": [A, D, S], "constraints": cons, "blocks": blocks, "main": 3})
+    return out
+
+
+def nested_geometry_layer(ctx, res):
+    """The arguments (incl. each constraint's geometry) every constructor of these programs hands to _create,
+    recorded on the real code, against Front/Create.v (layer L1-create of props/c16.py)."""
+    import common
+    from props import c16
+    lines, expect = [], []
+    for p in nested_geometry_programs():
+        try:
+            built, rec, steps = c16.instrumented_build(p)
+        except Exception as e:  # noqa
+            res.violations.append(Violation("corr:L1-create", "nested-geometry family: instrumented build failed: %r" % (e,),
+                                            {"layer": "L1-create", "program": p}, failing_input=False))
+            continue
+        for st in steps:
+            lines.append("(create %s)" % st["exp"])
+            expect.append((rec, st, p))
+    if not lines:
+        return
+    outs = common.run_model(lines, domain="Front")
+    bad = []
+    for (rec, st, p), mod in zip(expect, outs):
+        rv = c16.real_create_view(rec, st)
+        try:
+            mv = c16.model_create_view(mod)[0]
+        except Exception:  # noqa
+            mv = "!" + mod
+        ok = (rv == mv)
+        res.layer("L1-create-nested-geometry", ok)
+        if not ok:
+            bad.append((p, st, rv, mv))
+    if bad:
+        p, st, rv, mv = bad[0]
+        res.violations.append(Violation(
+            "corr:L1-create", "the geometry handed on for a block's constraints differs from Front/Create.v on %d constructor calls "
+            "of the nested-geometry family, first: real=%s model=%s" % (len(bad), str(rv)[:300], str(mv)[:300]),
+            {"layer": "L1-create-nested-geometry", "theorems": ["C26_*", "C25_nest_args"], "program": p,
+             "real": str(rv)[:1500], "model": str(mv)[:1500]}, failing_input=False))
+
+
 def run(ctx, res):
+    nested_geometry_layer(ctx, res)
     n = 120 if ctx.quick else 800
     res.rule = ("%d generated programs (Repeat / Merge / Nest incl. transition and window factors under sustain, MultiCrossBlock with the "
                 "three alignments, plain CrossBlock) + corpus: every distinct within_block geometry of the block's constraints and None; "
